@@ -435,6 +435,20 @@ def oracle_api(run):
         for i in range(len(dom)):
             for j in range(i + 1, len(dom)):
                 differ(key, dom[i], dom[j])
+    # every attribute of every parameter matters in every context (plain,
+    # fixed, constrained by an expression): bounds still clip a constrained
+    # or fixed value, so they are part of the effective settings
+    for pname in ["E", "R", "nu", "contact_point", "baseline"]:
+        for ctx in [{}, {"vary": False}, {"expr": "E*1e-13"}]:
+            if "expr" in ctx and pname == "E":
+                continue
+            for edit in [{"min": -5.0}, {"max": 7.5}, {"min": -1.0, "max": 9.0},
+                         {"value": 0.123}]:
+                if "value" in edit and "expr" in ctx:
+                    continue    # the value of a constrained parameter is derived
+                a = mkparams(**{pname: dict(ctx)})
+                bb = mkparams(**{pname: dict(ctx, **edit)})
+                differ("params_initial", a, bb)
     # don't-cares become cares in the other mode
     differ("optimal_fit_num_samples", 10, 20,
            extra=dict(optimal_fit_edelta=True, range_x=[-1e-6, 1e-6]))
